@@ -255,6 +255,579 @@ theorem parse_digits_run2d (r : Nat) : parseRun2d (toString r) = .ok r := by
 theorem dec_string_id (v : Nat) : (toString v).toNat? = some v := by
   simpa [toString] using Nat.toNat?_repr v
 
+/-! ### text level for EVERY string (extension round): `int()` first, then the regular expression -/
+
+theorem pyDigit_ascii (c : Char) (h : c.isDigit = true) : pyDigit c = some (c.toNat - '0'.toNat) := by
+  have h' : 48 ≤ c.toNat ∧ c.toNat ≤ 57 := by
+    simp only [Char.isDigit, Bool.and_eq_true, decide_eq_true_eq] at h
+    have h1 : '0'.val ≤ c.val := h.1
+    have h2 : c.val ≤ '9'.val := h.2
+    exact ⟨UInt32.le_iff_toNat_le.1 h1, UInt32.le_iff_toNat_le.1 h2⟩
+  have e : (fun z => decide (z ≤ c.toNat) && decide (c.toNat < z + 10)) 48 = true := by
+    simp only [Bool.and_eq_true, decide_eq_true_eq]; omega
+  have hz : ndZeros = 48 :: ndZeros.tail := rfl
+  unfold pyDigit
+  rw [hz, List.find?_cons_of_pos (p := fun z => decide (z ≤ c.toNat) && decide (c.toNat < z + 10)) (a := 48) (h := e)]
+  rfl
+
+theorem isNd_ascii (c : Char) (h : c.isDigit = true) : isNd c = true := by
+  simp [isNd, pyDigit_ascii c h]
+
+theorem digitsValU_ascii (cs : List Char) (h : ∀ c ∈ cs, c.isDigit = true) (a : Nat) :
+    cs.foldl (fun a c => a * 10 + (pyDigit c).getD 0) a = Nat.ofDigitChars 10 cs a := by
+  induction cs generalizing a with
+  | nil => rfl
+  | cons c cs ih =>
+    simp only [List.foldl_cons, Nat.ofDigitChars_cons]
+    rw [pyDigit_ascii c (h c (by simp)), Option.getD_some, ih (fun d hd => h d (by simp [hd]))]
+    congr 1; omega
+
+theorem digitsValU_toDigits (n : Nat) : digitsValU (Nat.toDigits 10 n) = n := by
+  unfold digitsValU
+  rw [digitsValU_ascii _ (fun c hc => Nat.isDigit_of_mem_toDigits (by decide) (by decide) hc)]
+  exact Nat.ofDigitChars_ten_toDigits
+
+theorem span_nd (l r : List Char) (hl : ∀ c ∈ l, c.isDigit = true)
+    (hr : ∀ c, r.head? = some c → isNd c = false) : spanNd (l ++ r) = (l, r) := by
+  unfold spanNd
+  have h1 : ∀ c ∈ l, isNd c = true := fun c hc => isNd_ascii c (hl c hc)
+  rw [List.takeWhile_append_of_pos h1, List.dropWhile_append_of_pos h1]
+  cases r with
+  | nil => simp
+  | cons c r =>
+    have : isNd c = false := hr c rfl
+    simp [this]
+
+theorem pyStrip_head (a : Char) (t : List Char) (h : pyIsSpace a = false) : ∃ t', pyStrip (a :: t) = a :: t' := by
+  unfold pyStrip
+  rw [List.dropWhile_cons_of_neg (by simp [h]), List.reverse_cons, List.dropWhile_append]
+  have e : List.dropWhile pyIsSpace [a] = [a] := by simp [List.dropWhile_cons, h]
+  split
+  · exact ⟨[], by rw [e]; rfl⟩
+  · exact ⟨(List.dropWhile pyIsSpace t.reverse).reverse, by simp⟩
+
+/-- `int()` refuses every string whose first character is neither white space, a sign nor a decimal digit -/
+theorem pyInt_none_of_head (a : Char) (t : List Char) (hs : pyIsSpace a = false) (hd : pyDigit a = none)
+    (hp : a ≠ '+') (hm : a ≠ '-') : pyInt (a :: t) = none := by
+  obtain ⟨t', ht⟩ := pyStrip_head a t hs
+  have hb : pyIntBodyLim (a :: t') = none := by
+    unfold pyIntBodyLim
+    split
+    · rfl
+    · simp [pyIntBody, hd]
+  unfold pyInt
+  rw [ht]
+  split
+  · rename_i r heq; injection heq with h1 _; exact absurd h1 hp
+  · rename_i r heq; injection heq with h1 _; exact absurd h1 hm
+  · simp [hb]
+
+theorem toDigits_len (k : Nat) (h : k < 10 ^ 5) : ¬ (Nat.toDigits 10 k).length > pyMaxDigits := by
+  have := (Nat.length_toDigits_le_iff (b := 10) (n := k) (k := 5) (by decide) (by decide)).2 h
+  simp only [pyMaxDigits]; omega
+
+/-- text level, new parser: the 'vN_M_P' string rebuilt by the unpacker parses back to the same run2d number -/
+theorem parse_full_fmt (r : Nat) (h : r < 20000) : parseRun2dFull (fmtRun2d r).toList = .ok (r : Int) := by
+  have hi : pyInt (fmtRun2d r).toList = none := by
+    rw [fmt_toList]
+    exact pyInt_none_of_head 'v' _ (by decide) (by decide) (by decide) (by decide)
+  have hu : ∀ c, ('_' :: (Nat.toDigits 10 (r % 10000 / 100) ++ '_' :: Nat.toDigits 10 (r % 100))).head? = some c → isNd c = false := by
+    intro c hc; simp at hc; subst hc; decide
+  have hu2 : ∀ c, ('_' :: Nat.toDigits 10 (r % 100)).head? = some c → isNd c = false := by
+    intro c hc; simp at hc; subst hc; decide
+  have hn : ∀ c, ([] : List Char).head? = some c → isNd c = false := by intro c hc; simp at hc
+  have s3 := span_nd (Nat.toDigits 10 (r % 100)) [] (digits_all _) hn
+  simp only [List.append_nil] at s3
+  have hg : matchGroupsU (fmtRun2d r).toList =
+      some (Nat.toDigits 10 (r / 10000 + 5), Nat.toDigits 10 (r % 10000 / 100), Nat.toDigits 10 (r % 100)) := by
+    rw [fmt_toList]
+    simp only [matchGroupsU, span_nd _ _ (digits_all _) hu, span_nd _ _ (digits_all _) hu2, s3,
+      List.isEmpty_iff, Nat.toDigits_ne_nil, if_false]
+  have hm : matchVNMPU (fmtRun2d r).toList = some (r / 10000 + 5, r % 10000 / 100, r % 100) := by
+    unfold matchVNMPU
+    rw [hg]
+    have l1 := toDigits_len (r / 10000 + 5) (by omega)
+    have l2 := toDigits_len (r % 10000 / 100) (by omega)
+    have l3 := toDigits_len (r % 100) (by omega)
+    simp only [l1, l2, l3, decide_false, Bool.or_false, Bool.false_eq_true, if_false, digitsValU_toDigits]
+  unfold parseRun2dFull denoteRun2d
+  rw [hi, hm]
+  simp only [run2dOfDen, run2dOfNMP]
+  rw [if_pos (by simp only [Bool.and_eq_true, decide_eq_true_eq]; omega)]
+  simp only [pure, Except.pure, Functor.map, Except.map]
+  congr 2; omega
+
+/-- every refusal of the string branch is a ValueError -/
+theorem parse_full_error (cs : List Char) (e : String) (h : parseRun2dFull cs = .error e) : e = "ValueError" := by
+  unfold parseRun2dFull at h
+  split at h
+  · rename_i d _
+    cases d with
+    | int i => simp [run2dOfDen, pure, Except.pure] at h
+    | nmp n m p =>
+      simp only [run2dOfDen, run2dOfNMP] at h
+      split at h
+      · simp [pure, Except.pure, Functor.map, Except.map] at h
+      · simp [valueError, Functor.map, Except.map] at h; exact h.symm
+  · simp [valueError] at h; exact h.symm
+
+/-- what an accepted string denotes: EITHER the integer `int()` reads, OR (only when `int()` refuses) the version triple
+the expression reads, which is then inside the documented bounds and is exactly what the unpacker rebuilds -/
+theorem parse_full_cases (cs : List Char) (r : Int) (h : parseRun2dFull cs = .ok r) :
+    (pyInt cs = some r ∧ denoteRun2d cs = some (.int r)) ∨
+    (pyInt cs = none ∧ ∃ n m p, matchVNMPU cs = some (n, m, p) ∧ denoteRun2d cs = some (.nmp n m p) ∧
+      (5 ≤ n ∧ n ≤ 6 ∧ m ≤ 99 ∧ p ≤ 99) ∧ r = ((n - 5) * 10000 + m * 100 + p : Nat) ∧ nmpOfRun2d r.toNat = (n, m, p)) := by
+  unfold parseRun2dFull at h
+  cases hi : pyInt cs with
+  | some i =>
+    left
+    simp only [denoteRun2d, hi, run2dOfDen, pure, Except.pure] at h ⊢
+    injection h with h
+    subst h
+    exact ⟨rfl, rfl⟩
+  | none =>
+    right
+    refine ⟨rfl, ?_⟩
+    cases hm : matchVNMPU cs with
+    | none => simp [denoteRun2d, hi, hm, valueError] at h
+    | some t =>
+      obtain ⟨n, m, p⟩ := t
+      simp only [denoteRun2d, hi, hm, run2dOfDen] at h
+      cases hr : run2dOfNMP n m p with
+      | error e => simp [hr, Functor.map, Except.map] at h
+      | ok q =>
+        simp only [hr, Functor.map, Except.map] at h
+        injection h with h
+        subst h
+        have rt := run2d_nmp_roundtrip n m p q hr
+        have bd : 5 ≤ n ∧ n ≤ 6 ∧ m ≤ 99 ∧ p ≤ 99 := by
+          simp only [run2dOfNMP] at hr
+          split at hr
+          · rename_i hc; simp only [Bool.and_eq_true, decide_eq_true_eq] at hc; omega
+          · simp [valueError] at hr
+        refine ⟨n, m, p, rfl, by simp [denoteRun2d, hi, hm], bd, by rw [rt.2], ?_⟩
+        simpa using rt.1
+
+/-- two denotations with the same run2d number are the same denotation, within each form (an integer and a version
+string CAN share a number: 'v5_0_26' and '26' are the same reduction - that is the documented encoding) -/
+theorem run2d_den_injective (d d' : Run2dDen) (r : Int) (h : run2dOfDen d = .ok r) (h' : run2dOfDen d' = .ok r) :
+    (∀ i i', d = .int i → d' = .int i' → i = i') ∧
+    (∀ n m p n' m' p', d = .nmp n m p → d' = .nmp n' m' p' → (n, m, p) = (n', m', p')) := by
+  constructor
+  · intro i i' e e'; subst e; subst e'
+    simp only [run2dOfDen, pure, Except.pure] at h h'
+    injection h with h; injection h' with h'; omega
+  · intro n m p n' m' p' e e'; subst e; subst e'
+    simp only [run2dOfDen] at h h'
+    cases hr : run2dOfNMP n m p with
+    | error e => simp [hr, Functor.map, Except.map] at h
+    | ok q =>
+      cases hr' : run2dOfNMP n' m' p' with
+      | error e => simp [hr', Functor.map, Except.map] at h'
+      | ok q' =>
+        simp only [hr, hr', Functor.map, Except.map] at h h'
+        injection h with h; injection h' with h'
+        have : q = q' := by omega
+        subst this
+        exact run2d_nmp_injective _ _ _ _ _ _ _ hr hr'
+
+theorem packSpecStr_ok (a b c : Int) (s : List Char) (l i : Option Int) (v : Nat)
+    (h : packSpecStr a b c s l i = .ok v) :
+    ∃ r lv, parseRun2dFull s = .ok r ∧ packSpec ⟨a, b, c, r, lv⟩ = .ok v ∧
+      (∀ s', packSpecStr a b c s' l i = (parseRun2dFull s').bind (fun r' => packSpec ⟨a, b, c, r', lv⟩)) := by
+  cases hr : parseRun2dFull s with
+  | error e =>
+    cases l <;> cases i <;> simp [packSpecStr, hr, valueError, bind, Except.bind] at h
+  | ok r =>
+    cases l with
+    | none =>
+      cases i with
+      | none => exact ⟨r, 0, rfl, by simpa [packSpecStr, hr, bind, Except.bind, packSpecLI] using h,
+          fun s' => by simp [packSpecStr, bind, packSpecLI]⟩
+      | some iv => exact ⟨r, iv, rfl, by simpa [packSpecStr, hr, bind, Except.bind, packSpecLI] using h,
+          fun s' => by simp [packSpecStr, bind, packSpecLI]⟩
+    | some lv =>
+      cases i with
+      | none => exact ⟨r, lv, rfl, by simpa [packSpecStr, hr, bind, Except.bind, packSpecLI] using h,
+          fun s' => by simp [packSpecStr, bind, packSpecLI]⟩
+      | some iv => simp [packSpecStr, valueError] at h
+
+/-- two accepted strings give the same specObjID exactly when they denote the same run2d number -/
+theorem specstr_same_id_iff (a b c : Int) (s s' : List Char) (l i : Option Int) (v v' : Nat)
+    (h : packSpecStr a b c s l i = .ok v) (h' : packSpecStr a b c s' l i = .ok v') :
+    v = v' ↔ parseRun2dFull s = parseRun2dFull s' := by
+  obtain ⟨r, lv, hr, hp, hall⟩ := packSpecStr_ok a b c s l i v h
+  have h2 := hall s'
+  rw [h'] at h2
+  cases hr' : parseRun2dFull s' with
+  | error e => simp [hr', Except.bind] at h2
+  | ok r' =>
+    simp only [hr', Except.bind] at h2
+    have u := spec_unpack_pack _ _ hp
+    have u' := spec_unpack_pack _ _ h2.symm
+    rw [hr]
+    constructor
+    · intro e; subst e
+      rw [u] at u'
+      injection u' with _ _ _ e4 _
+      rw [e4]
+    · intro e
+      injection e with e
+      subst e
+      rw [hp] at h2
+      injection h2 with e
+      exact e.symm
+
+/-- the string the unpacker returns is the canonical representative: it is accepted, and packing it gives the same ID
+as the string the caller wrote - for EVERY accepted string (white space, sign, underscores, leading zeros, suffixes,
+non-ASCII digits) -/
+theorem specstr_canonical (a b c : Int) (s : List Char) (l i : Option Int) (v : Nat)
+    (h : packSpecStr a b c s l i = .ok v) :
+    parseRun2dFull s = .ok (unpackSpec v).run2d ∧
+    parseRun2dFull (canonRun2d (unpackSpec v).run2d) = .ok (unpackSpec v).run2d ∧
+    packSpecStr a b c (canonRun2d (unpackSpec v).run2d) l i = .ok v := by
+  obtain ⟨r, lv, hr, hp, hall⟩ := packSpecStr_ok a b c s l i v h
+  have u := spec_unpack_pack _ _ hp
+  have hok : (SpecF.mk a b c r lv).ok = true := by
+    by_cases hk : (SpecF.mk a b c r lv).ok = true
+    · exact hk
+    · simp [packSpec, hk, valueError] at hp
+  have bd := ((SpecF.ok_iff _).1 hok).2.2.2.1
+  simp only at bd
+  have e1 : (unpackSpec v).run2d = r := by rw [u]
+  have hc : parseRun2dFull (canonRun2d r) = .ok r := by
+    unfold canonRun2d
+    rw [parse_full_fmt r.toNat (by omega)]
+    congr 1; omega
+  rw [e1]
+  refine ⟨hr, hc, ?_⟩
+  rw [hall, hc]
+  exact hp
+
+/-- an accepted string whose number is out of range, a negative literal, or a refused string: ValueError, whatever the
+other fields are -/
+theorem specstr_rejects (a b c : Int) (s : List Char) (l i : Option Int)
+    (h : (∀ r, parseRun2dFull s ≠ .ok r) ∨ (∃ r, parseRun2dFull s = .ok r ∧ (r < 0 ∨ 2^14 ≤ r))) :
+    packSpecStr a b c s l i = .error "ValueError" := by
+  cases hr : parseRun2dFull s with
+  | error e =>
+    have := parse_full_error s e hr
+    subst this
+    cases l <;> cases i <;> simp [packSpecStr, hr, valueError, bind, Except.bind]
+  | ok r =>
+    rcases h with h | ⟨r', h1, h2⟩
+    · exact absurd hr (h r)
+    · rw [hr] at h1
+      injection h1 with h1
+      subst h1
+      have rej : ∀ lv, packSpec ⟨a, b, c, r, lv⟩ = .error "ValueError" :=
+        fun lv => spec_rejects _ (by simp only; omega)
+      cases l <;> cases i <;> simp [packSpecStr, hr, valueError, bind, Except.bind, packSpecLI, rej]
+
+theorem digit_bounds (c : Char) (h : c.isDigit = true) : 48 ≤ c.toNat ∧ c.toNat ≤ 57 := by
+  simp only [Char.isDigit, Bool.and_eq_true, decide_eq_true_eq] at h
+  have h1 : '0'.val ≤ c.val := h.1
+  have h2 : c.val ≤ '9'.val := h.2
+  exact ⟨UInt32.le_iff_toNat_le.1 h1, UInt32.le_iff_toNat_le.1 h2⟩
+
+theorem not_space_of_digit (c : Char) (h : c.isDigit = true) : pyIsSpace c = false := by
+  have := digit_bounds c h
+  simp only [pyIsSpace, pySpaces, List.any_cons, List.any_nil, Bool.or_false, Bool.or_eq_false_iff,
+    Bool.and_eq_false_iff, decide_eq_false_iff_not]
+  omega
+
+theorem pyIntDigits_ascii (cs : List Char) (h : ∀ c ∈ cs, c.isDigit = true) (acc : Nat) :
+    pyIntDigits cs acc = some (Nat.ofDigitChars 10 cs acc) := by
+  induction cs generalizing acc with
+  | nil => rfl
+  | cons c cs ih =>
+    have hc := h c (by simp)
+    have hne : c ≠ '_' := by intro e; subst e; exact absurd hc (by decide)
+    unfold pyIntDigits
+    rw [if_neg hne, pyDigit_ascii c hc]
+    simp only
+    rw [ih (fun d hd => h d (by simp [hd])), Nat.ofDigitChars_cons]
+    congr 2; omega
+
+theorem pyStrip_digits (cs : List Char) (h : ∀ c ∈ cs, c.isDigit = true) : pyStrip cs = cs := by
+  have hd : ∀ l : List Char, (∀ c ∈ l, c.isDigit = true) → l.dropWhile pyIsSpace = l := by
+    intro l hl
+    cases l with
+    | nil => rfl
+    | cons a t => exact List.dropWhile_cons_of_neg (by simp [not_space_of_digit a (hl a (by simp))])
+  unfold pyStrip
+  rw [hd cs h, hd cs.reverse (fun c hc => h c (by simpa using hc)), List.reverse_reverse]
+
+/-- the new parser restricted to the old domain (plain ASCII digits, at most `sys.get_int_max_str_digits()` of them)
+is the old one: leading zeros are read as decimal, never octal -/
+theorem parse_full_ascii_digits (cs : List Char) (hne : cs ≠ []) (h : ∀ c ∈ cs, c.isDigit = true)
+    (hl : cs.length ≤ pyMaxDigits) : parseRun2dFull cs = .ok (digitsVal cs : Nat) := by
+  cases cs with
+  | nil => exact absurd rfl hne
+  | cons a t =>
+    have ha := h a (by simp)
+    have hb : pyIntBodyLim (a :: t) = some (digitsVal (a :: t)) := by
+      unfold pyIntBodyLim
+      have : ¬ ((a :: t).filter (fun c => c != '_')).length > pyMaxDigits := by
+        have := List.length_filter_le (fun c => c != '_') (a :: t)
+        omega
+      rw [if_neg this, pyIntBody, pyDigit_ascii a ha]
+      simp only
+      rw [pyIntDigits_ascii t (fun d hd => h d (by simp [hd]))]
+      simp [digitsVal, Nat.ofDigitChars_cons]
+    have hi : pyInt (a :: t) = some ((digitsVal (a :: t) : Nat) : Int) := by
+      unfold pyInt
+      rw [pyStrip_digits _ h]
+      have hp : a ≠ '+' := by intro e; subst e; exact absurd ha (by decide)
+      have hm : a ≠ '-' := by intro e; subst e; exact absurd ha (by decide)
+      split
+      · rename_i r heq; injection heq with h1 _; exact absurd h1 hp
+      · rename_i r heq; injection heq with h1 _; exact absurd h1 hm
+      · simp [hb]
+    simp [parseRun2dFull, denoteRun2d, hi, run2dOfDen, pure, Except.pure]
+
+/-! ### columns of every integer width (extension round): the machine path is the path on the numbers -/
+
+theorem val_bounds (c : IntCol) (hw : c.w ≤ 64) : -2^63 ≤ c.val ∧ c.val < 2^64 := by
+  have hp : (2:Nat)^c.w ≤ 2^64 := Nat.pow_le_pow_right (by decide) hw
+  unfold IntCol.val
+  split
+  · have h1 := BitVec.toInt_lt (x := c.x)
+    have h2 := BitVec.le_toInt c.x
+    have hp' : (2:Int)^(c.w - 1) ≤ 2^63 := by
+      have : (2:Nat)^(c.w - 1) ≤ 2^63 := Nat.pow_le_pow_right (by decide) (by omega)
+      exact_mod_cast this
+    omega
+  · have := c.x.isLt
+    omega
+
+theorem to64_toInt (c : IntCol) (hw : c.w ≤ 64) :
+    (c.val < 2^63 → c.to64.toInt = c.val) ∧ (2^63 ≤ c.val → c.to64.toInt < 0) := by
+  have hp : (2:Nat)^c.w ≤ 2^64 := Nat.pow_le_pow_right (by decide) hw
+  unfold IntCol.val IntCol.to64
+  split
+  · rw [BitVec.toInt_signExtend_of_le hw]
+    have h1 := BitVec.toInt_lt (x := c.x)
+    have hp' : (2:Int)^(c.w - 1) ≤ 2^63 := by
+      have : (2:Nat)^(c.w - 1) ≤ 2^63 := Nat.pow_le_pow_right (by decide) (by omega)
+      exact_mod_cast this
+    constructor
+    · intro _; rfl
+    · intro h; omega
+  · have hn : (c.x.setWidth 64).toNat = c.x.toNat := BitVec.toNat_setWidth_of_le hw
+    rw [BitVec.toInt_eq_toNat_cond, hn]
+    have := c.x.isLt
+    constructor
+    · intro h; rw [if_pos (by omega)]
+    · intro h; rw [if_neg (by omega)]; omega
+
+theorem inRM_to64 (c : IntCol) (hw : c.w ≤ 64) (lo hi : Int) (hlo : 0 ≤ lo) (hhi : hi ≤ 2^63) :
+    inRM c.to64 lo hi = inR c.val lo hi := by
+  have ⟨h1, h2⟩ := to64_toInt c hw
+  unfold inRM inR
+  by_cases h : c.val < 2^63
+  · rw [h1 h]
+  · have h' := h2 (by omega)
+    have e1 : decide (lo ≤ c.to64.toInt) = false := by simp; omega
+    have e2 : decide (c.val < hi) = false := by simp; omega
+    simp [e1, e2]
+
+theorem to64_toNat (c : IntCol) (hw : c.w ≤ 64) (h0 : 0 ≤ c.val) (h : c.val < 2^63) :
+    c.to64.toNat = c.val.toNat := by
+  have e := (to64_toInt c hw).1 h
+  rw [BitVec.toInt_eq_toNat_cond] at e
+  have := c.to64.isLt
+  split at e <;> omega
+
+theorem objid_cols (sv rerun run camcol ff field obj : IntCol)
+    (h1 : sv.w ≤ 64) (h2 : rerun.w ≤ 64) (h3 : run.w ≤ 64) (h4 : camcol.w ≤ 64) (h5 : ff.w ≤ 64) (h6 : field.w ≤ 64)
+    (h7 : obj.w ≤ 64) :
+    packObjidCols sv rerun run camcol ff field obj =
+      (packObjid ⟨sv.val, rerun.val, run.val, camcol.val, ff.val, field.val, obj.val⟩).map (BitVec.ofNat 64) := by
+  unfold packObjidCols
+  rw [inRM_to64 ff h5 0 2 (by omega) (by omega), inRM_to64 sv h1 0 16 (by omega) (by omega),
+    inRM_to64 rerun h2 0 (2^11) (by omega) (by omega), inRM_to64 run h3 0 (2^16) (by omega) (by omega),
+    inRM_to64 camcol h4 1 7 (by omega) (by omega), inRM_to64 field h6 0 (2^12) (by omega) (by omega),
+    inRM_to64 obj h7 0 (2^16) (by omega) (by omega)]
+  by_cases hok : (ObjF.mk sv.val rerun.val run.val camcol.val ff.val field.val obj.val).ok = true
+  · have hok' : (inR ff.val 0 2 && inR sv.val 0 16 && inR rerun.val 0 (2^11) && inR run.val 0 (2^16) &&
+        inR camcol.val 1 7 && inR field.val 0 (2^12) && inR obj.val 0 (2^16)) = true := hok
+    rw [if_pos hok', (objid_layout _ hok).1]
+    obtain ⟨b5, b1, b2, b3, b4, b6, b7⟩ := (ObjF.ok_iff _).1 hok
+    simp only at b1 b2 b3 b4 b5 b6 b7
+    simp only [pure, Except.pure, Except.map]
+    congr 1
+    apply BitVec.eq_of_toNat_eq
+    simp only [BitVec.toNat_or, BitVec.toNat_shiftLeft, BitVec.toNat_ofNat,
+      to64_toNat _ h1 (by omega) (by omega), to64_toNat _ h2 (by omega) (by omega), to64_toNat _ h3 (by omega) (by omega),
+      to64_toNat _ h4 (by omega) (by omega), to64_toNat _ h5 (by omega) (by omega), to64_toNat _ h6 (by omega) (by omega),
+      to64_toNat _ h7 (by omega) (by omega)]
+    rw [Nat.mod_eq_of_lt (a := sv.val.toNat <<< 59) (by omega), Nat.mod_eq_of_lt (a := rerun.val.toNat <<< 48) (by omega),
+      Nat.mod_eq_of_lt (a := run.val.toNat <<< 32) (by omega), Nat.mod_eq_of_lt (a := camcol.val.toNat <<< 29) (by omega),
+      Nat.mod_eq_of_lt (a := ff.val.toNat <<< 28) (by omega), Nat.mod_eq_of_lt (a := field.val.toNat <<< 16) (by omega)]
+    rw [pack7 _ _ _ _ _ _ _ (by omega) (by omega) (by omega) (by omega) (by omega) (by omega)]
+    simp only [objLayout]
+    omega
+  · have hok' : ¬ (inR ff.val 0 2 && inR sv.val 0 16 && inR rerun.val 0 (2^11) && inR run.val 0 (2^16) &&
+        inR camcol.val 1 7 && inR field.val 0 (2^12) && inR obj.val 0 (2^16)) = true := hok
+    rw [if_neg hok']
+    simp [packObjid, hok, valueError, Except.map]
+
+theorem toNat_of_toInt (x : BitVec 64) (v : Int) (h : x.toInt = v) (h0 : 0 ≤ v) : x.toNat = v.toNat := by
+  rw [BitVec.toInt_eq_toNat_cond] at h
+  have := x.isLt
+  split at h <;> omega
+
+theorem sub_offset_toInt (x : BitVec 64) :
+    (x - 50000#64).toInt = if -2^63 + 50000 ≤ x.toInt then x.toInt - 50000 else x.toInt - 50000 + 2^64 := by
+  have e : (50000#64).toInt = 50000 := by decide
+  have h1 := BitVec.toInt_lt (x := x)
+  have h2 := BitVec.le_toInt x
+  simp only [Nat.add_one_sub_one] at h1 h2
+  rw [BitVec.toInt_sub, e, Int.bmod_def]
+  split <;> split <;> omega
+
+/-- the MJD column: int64 cast, offset removed with wrap-around, signed range check = the check on the number -/
+theorem mjd_check (c : IntCol) (hw : c.w ≤ 64) :
+    inRM (c.to64 - 50000#64) 0 (2^14) = inR (c.val - 50000) 0 (2^14) ∧
+    (inR (c.val - 50000) 0 (2^14) = true → (c.to64 - 50000#64).toNat = (c.val - 50000).toNat) := by
+  have ⟨t1, t2⟩ := to64_toInt c hw
+  have vb := val_bounds c hw
+  have hs := sub_offset_toInt c.to64
+  have h1 := BitVec.toInt_lt (x := c.to64)
+  have h2 := BitVec.le_toInt c.to64
+  simp only [Nat.add_one_sub_one] at h1 h2
+  have key : inRM (c.to64 - 50000#64) 0 (2^14) = inR (c.val - 50000) 0 (2^14) := by
+    unfold inRM inR
+    rw [Bool.eq_iff_iff]
+    simp only [Bool.and_eq_true, decide_eq_true_eq]
+    by_cases h : c.val < 2^63
+    · have e := t1 h
+      rw [e] at hs
+      split at hs <;> omega
+    · have e := t2 (by omega)
+      split at hs <;> omega
+  refine ⟨key, ?_⟩
+  intro hin
+  have hb := (inR_iff _ _ _).1 hin
+  have e := t1 (by omega)
+  rw [e] at hs
+  rw [if_pos (by omega)] at hs
+  exact toNat_of_toInt _ _ hs (by omega)
+
+theorem spec_cols (plate fiber mjd run2d line : IntCol)
+    (h1 : plate.w ≤ 64) (h2 : fiber.w ≤ 64) (h3 : mjd.w ≤ 64) (h4 : run2d.w ≤ 64) (h5 : line.w ≤ 64) :
+    packSpecCols plate fiber mjd run2d line =
+      (packSpec ⟨plate.val, fiber.val, mjd.val, run2d.val, line.val⟩).map (BitVec.ofNat 64) := by
+  unfold packSpecCols
+  simp only
+  rw [(mjd_check mjd h3).1]
+  by_cases hok : (SpecF.mk plate.val fiber.val mjd.val run2d.val line.val).ok = true
+  · have hok' : (inR plate.val 0 (2^14) && inR fiber.val 0 (2^12) && inR (mjd.val - 50000) 0 (2^14) &&
+        inR run2d.val 0 (2^14) && inR line.val 0 (2^10)) = true := hok
+    rw [if_pos hok', (spec_layout _ hok).1]
+    have hm : inR (mjd.val - 50000) 0 (2^14) = true := by
+      simp only [Bool.and_eq_true] at hok'; exact hok'.1.1.2
+    obtain ⟨b1, b2, b3, b4, b5⟩ := (SpecF.ok_iff _).1 hok
+    simp only at b1 b2 b3 b4 b5
+    simp only [pure, Except.pure, Except.map]
+    congr 1
+    apply BitVec.eq_of_toNat_eq
+    simp only [BitVec.toNat_or, BitVec.toNat_shiftLeft, BitVec.toNat_ofNat, (mjd_check mjd h3).2 hm,
+      to64_toNat _ h1 (by omega) (by omega), to64_toNat _ h2 (by omega) (by omega),
+      to64_toNat _ h4 (by omega) (by omega), to64_toNat _ h5 (by omega) (by omega)]
+    rw [Nat.mod_eq_of_lt (a := plate.val.toNat <<< 50) (by omega), Nat.mod_eq_of_lt (a := fiber.val.toNat <<< 38) (by omega),
+      Nat.mod_eq_of_lt (a := (mjd.val - 50000).toNat <<< 24) (by omega), Nat.mod_eq_of_lt (a := run2d.val.toNat <<< 10) (by omega)]
+    rw [pack5 _ _ _ _ _ (by omega) (by omega) (by omega) (by omega)]
+    simp only [specLayout]
+    omega
+  · have hok' : ¬ (inR plate.val 0 (2^14) && inR fiber.val 0 (2^12) && inR (mjd.val - 50000) 0 (2^14) &&
+        inR run2d.val 0 (2^14) && inR line.val 0 (2^10)) = true := hok
+    rw [if_neg hok']
+    simp [packSpec, hok, valueError, Except.map]
+
+/-! ### array calls: the element-wise map, and a refusal exactly when some element would be refused -/
+
+/-- specObjID: the array call (each range check `.any()` over the whole column, then one vector expression) is the
+scalar call element by element -/
+theorem specs_is_map (fs : List SpecF) : packSpecs fs = fs.mapM packSpec := by
+  induction fs with
+  | nil => rfl
+  | cons f fs ih =>
+    rw [List.mapM_cons, ← ih]
+    by_cases hok : f.ok = true
+    · have hok' := hok
+      simp only [SpecF.ok, Bool.and_eq_true] at hok'
+      obtain ⟨⟨⟨⟨h1, h2⟩, h3⟩, h4⟩, h5⟩ := hok'
+      simp only [packSpec, hok, if_true, packSpecs, List.any_cons, h1, h2, h3, h4, h5,
+        Bool.not_true, Bool.false_or, List.map_cons, bind, Except.bind, pure, Except.pure]
+      repeat' split
+      all_goals first | rfl | simp_all [valueError]
+    · have hne : f.ok = false := by simpa using hok
+      have hne' := hne
+      simp only [SpecF.ok, Bool.and_eq_false_iff] at hne'
+      simp only [packSpec, hne, Bool.false_eq_true, if_false, valueError, bind, Except.bind,
+        packSpecs, List.any_cons]
+      rcases hne' with ((((h | h) | h) | h) | h) <;> simp [h] <;>
+        (repeat' split) <;> first | rfl | simp_all
+
+theorem mapM_refuses_iff {α β : Type} (g : α → R β) (hg : ∀ a e, g a = .error e → e = "ValueError") (fs : List α) :
+    (fs.mapM g = .error "ValueError" ↔ ∃ f ∈ fs, g f = .error "ValueError") ∧
+    ((∃ vs, fs.mapM g = .ok vs) ↔ ∀ f ∈ fs, ∃ v, g f = .ok v) := by
+  induction fs with
+  | nil => simp [pure, Except.pure]
+  | cons a fs ih =>
+    rw [List.mapM_cons]
+    cases ha : g a with
+    | error e =>
+      have := hg a e ha
+      subst this
+      simp [bind, Except.bind, ha]
+    | ok b =>
+      cases hm : fs.mapM g with
+      | error e' =>
+        rw [hm] at ih
+        simp only [bind, Except.bind, List.mem_cons, exists_eq_or_imp, ha, forall_eq_or_imp]
+        constructor
+        · simpa using ih.1
+        · simpa using ih.2
+      | ok bs =>
+        rw [hm] at ih
+        simp only [bind, Except.bind, List.mem_cons, exists_eq_or_imp, ha, forall_eq_or_imp, pure, Except.pure]
+        constructor
+        · simpa using ih.1
+        · simpa using ih.2
+
+/-- objID: the array call raises (ValueError) exactly when the scalar call would raise for some element, and returns
+exactly when every element is in range -/
+theorem objids_refuses_iff (fs : List ObjF) :
+    (packObjids fs = .error "ValueError" ↔ ∃ f ∈ fs, packObjid f = .error "ValueError") ∧
+    ((∃ vs, packObjids fs = .ok vs) ↔ ∀ f ∈ fs, ∃ v, packObjid f = .ok v) := by
+  rw [objids_is_map]
+  refine mapM_refuses_iff packObjid ?_ fs
+  intro a e h
+  unfold packObjid at h
+  split at h
+  · simp [pure, Except.pure] at h
+  · simp [valueError] at h; exact h.symm
+
+/-- specObjID: the same for the array call of `sdss_specobjid` -/
+theorem specs_refuses_iff (fs : List SpecF) :
+    (packSpecs fs = .error "ValueError" ↔ ∃ f ∈ fs, packSpec f = .error "ValueError") ∧
+    ((∃ vs, packSpecs fs = .ok vs) ↔ ∀ f ∈ fs, ∃ v, packSpec f = .ok v) := by
+  rw [specs_is_map]
+  refine mapM_refuses_iff packSpec ?_ fs
+  intro a e h
+  unfold packSpec at h
+  split at h
+  · simp [pure, Except.pure] at h
+  · simp [valueError] at h; exact h.symm
+
+example : packSpecCols ⟨false, 16, 100#16⟩ ⟨true, 8, 100#8⟩ ⟨false, 16, 0#16⟩ ⟨false, 32, 15535#32⟩ ⟨true, 8, 100#8⟩
+    = .error "ValueError" := by decide +kernel
+example : packSpecCols ⟨true, 16, 4055#16⟩ ⟨true, 16, 408#16⟩ ⟨false, 16, 55359#16⟩ ⟨true, 32, 700#32⟩ ⟨false, 8, 0#8⟩
+    = .ok 4565636362342690816#64 := by decide +kernel
+
 /-! ### the model functions are the table-driven ones (tables are re-extracted from the source each run) -/
 
 theorem packObjidRaw_table (f : ObjF) : packObjidRaw f = packByTable objShiftTable f.vals := by
@@ -286,11 +859,41 @@ theorem unpackSpec_table (v : Nat) :
       ("mjd", (unpackSpec v).mjd), ("run2d", (unpackSpec v).run2d), ("line", (unpackSpec v).line)] := by
   simp [unpackByTable, specUnpackTable, unpackSpec]
 
+/-! ### cross-function consistency: `sdss_astrombad` range-checks run / camcol / field with the objID's field widths -/
+
+theorem okAstrombad_table (run camcol field : Int) :
+    okAstrombad run camcol field = okByTable astrombadRangeTable [("run", run), ("camcol", camcol), ("field", field)] := by
+  simp [okAstrombad, okByTable, astrombadRangeTable, val, List.lookup, Bool.and_assoc]
+
+/-- every row of `sdss_astrombad`'s range table is a row of `sdss_objid`'s -/
+theorem astrombad_rows_are_objid_rows : ∀ e ∈ astrombadRangeTable, e ∈ objRangeTable := by decide
+
+/-- `sdss_astrombad` accepts (run, camcol, field) exactly when they are the run / camcol / field of some packable objID -/
+theorem astrombad_iff_objid (run camcol field : Int) :
+    okAstrombad run camcol field = true ↔
+      ∃ f : ObjF, f.ok = true ∧ f.run = run ∧ f.camcol = camcol ∧ f.field = field := by
+  constructor
+  · intro h
+    refine ⟨⟨0, 0, run, camcol, 0, field, 0⟩, ?_, rfl, rfl, rfl⟩
+    simp only [okAstrombad, Bool.and_eq_true, inR_iff] at h
+    rw [ObjF.ok_iff]
+    simp only
+    omega
+  · rintro ⟨f, hok, rfl, rfl, rfl⟩
+    have := (ObjF.ok_iff f).1 hok
+    simp only [okAstrombad, Bool.and_eq_true, inR_iff]
+    omega
+
 /-! non-vacuity: the documentation's own examples meet the hypotheses -/
 example : (ObjF.mk 2 301 3704 3 0 91 146).ok = true := by decide
 example : packObjid (ObjF.mk 2 301 3704 3 0 91 146) = .ok 1237661382772195474 := by decide
 example : packSpec (SpecF.mk 4055 408 55359 700 0) = .ok 4565636362342690816 := by decide
 example : parseRun2d "v5_7_0" = .ok 700 := by decide
 example : run2dOfNMP 5 7 0 = .ok 700 := by decide
+example : parseRun2dFull " +1_000\n".toList = .ok 1000 := by decide +kernel
+example : parseRun2dFull "v05_007_000.fits".toList = .ok 700 := by decide +kernel
+example : parseRun2dFull "1__0".toList = .error "ValueError" := by decide +kernel
+example : parseRun2dFull [Char.ofNat 1633, Char.ofNat 1634] = .ok 12 := by decide +kernel
+example : packSpecStr 4055 408 55359 " 7_00 ".toList none none = .ok 4565636362342690816 := by decide +kernel
 
 end PydlVerif.C06
